@@ -35,7 +35,7 @@ REAL = common.REAL_ALL
 STUBS = common.STUBS_ALL
 PROBES = ['period_unit_omitted', 'sampling_period_set_before_unit', 'unit_on_one_end_only', 'mixed_units_in_one_interval', 'default_unit_not_s', 'period_unit_differs_from_default_unit',
           'pastified', 'dense_fleet', 'non_multiple_bound', 'non_multiple_rejected_at_parse_or_pastify', 'non_multiple_rejected_at_first_evaluation',
-          'same_numerals_different_unit', 'reconfigured_object', 'reconfigured_to_non_multiple']
+          'same_numerals_different_unit', 'reconfigured_object', 'reconfigured_to_non_multiple', 'bounds_as_declared_constants']
 
 TICKS = [
     [(1, 's'), (1000, 'ms'), (1000000, 'us'), (1000000000, 'ns')],
@@ -46,6 +46,22 @@ TICKS = [
     [(1, 'ms'), (1000, 'us')],
     [(250, 'ms'), (250000, 'us')],
 ]
+
+
+def _bounds_as_constants(text):
+    import re
+    consts = {}
+
+    def one(m):
+        num, unit = m.group(1), m.group(2) or ''
+        name = 'B' + num.replace('.', 'p')
+        consts[name] = num
+        return name + ((' ' + unit) if unit else '')
+
+    def interval(m):
+        return '[' + re.sub(r'([0-9]+(?:\.[0-9]+)?)(s|ms|us|ns)?', one, m.group(1)) + ']'
+    text = re.sub(r'\[([0-9.]+(?:s|ms|us|ns)?[,:][0-9.]+(?:s|ms|us|ns)?)\]', interval, text)
+    return text, sorted(consts.items())
 
 
 def gen_same_numerals(rng):
@@ -194,6 +210,8 @@ def gen(rng, tier):
             nt['du'] = pu
         if j == 0 and (P, pu) == cls_[0]:
             nt['style'] = 'plain'
+        if j > 0 and rng.random() < 0.2:
+            nt['const_bounds'] = rng.choice(['api', 'text'])
         try:
             text = 'out = ' + sg.to_text(ast, sg.Spelling(rng), units.bounds_printer(nt, rng)) + ';'
         except ValueError:
@@ -311,6 +329,15 @@ def run(sc):
         if text is None:
             text = 'out = ' + sg.to_text(ast, None, units.bounds_printer(nt, None)) + ';'
         desc = {'vars': common.var_decls(sc['vars']), 'spec': text}
+        if nt.get('const_bounds'):
+            # the same bounds, given as named constants: declared through the API or inside the text (const float B1 = 0.3)
+            text, consts = _bounds_as_constants(text)
+            if nt['const_bounds'] == 'text':
+                desc['spec'] = '\n'.join(['const float %s = %s' % (k, v) for k, v in consts] + [text])
+            else:
+                desc['spec'] = text
+                desc['consts'] = [[k, 'float', v] for k, v in consts]
+            r.probes['bounds_as_declared_constants'] += 1
         desc.update(units.spec_config(nt))
         times = units.stamps(nt, n)
         try:
